@@ -104,6 +104,12 @@ impl Subscription {
         self.observer.new_messages_available()
     }
 
+    /// Hands a wake-up of the messages signal on to another waiting consumer.
+    /// Used by a consumer that was woken but goes away before it has pulled.
+    pub fn pass_on_messages_available(&self) {
+        self.observer.notify_new_messages_available();
+    }
+
     /// Returns a signal for when the subscription gets deleted.
     pub fn deleted(&self) -> Deleted {
         self.observer.deleted()
